@@ -1,5 +1,5 @@
 """C20 — malformed length fields from the network cannot crash or balloon the client."""
-import os, sys
+import os, sys, struct
 sys.path.insert(0, os.path.join(os.path.dirname(os.path.dirname(os.path.abspath(__file__))), "lib"))
 import codec
 
@@ -9,10 +9,10 @@ META = {
     "technique": "Lean 4: totality + allocation-bound theorem for the model of the reflection decoder on ARBITRARY bytes (outcomes ok/error/panic/balloon), by mutual induction over all schema types incl. tagged fields, extended by a model of RecordSet.ReadFrom / readFromVersion1 / readFromVersion2 (nested remains, message sizes, batchLength, numRecords, record/key/value/header varints) plugged into the frame decoder; the 'lengths are checked against decoder.remain before allocating' facts (G1-G5 in decode.go/response.go/request.go, 7 record-set guards in record*.go) are re-extracted on every run and the theorems are instantiated at them; exact-frame-accounting theorem (one frame consumed whatever the fields say); counterexample theorems for the unchecked decoder; model<->code correspondence of the outcome class on systematically mutated frames decoded in a memory-limited child process",
     "level_claimed": {
         "category": "proof",
-        "text": "Kernel-checked: for every schema type, every input byte string and every frame size, ReadResponse/decode of the bounded decoder returns a message or an error - no panic outcome and no allocation request larger than the bytes left in the frame (decode_total_bounded, readResponse_total_bounded, readRequest_total_bounded, readResponse_total_with_records, readResponse_consumes_frame_with_records), instantiated at the decoder configuration extracted from the current source. Tied to the code by the extracted guard facts and by decoding ~20k (quick) mutated frames of every response type x version in a child process (ulimit -v, GOMEMLIMIT, timeout) and comparing the outcome class and measured allocation with the model.",
+        "text": "Kernel-checked: for every schema type, every input byte string and every frame size, ReadResponse/decode of the bounded decoder returns a message or an error - no panic outcome and no allocation request beyond the bytes left in the frame nor more than a constant ahead of the bytes actually received (decode_total_bounded, readResponse_total_bounded, readRequest_total_bounded, readResponse_total_with_records, readResponse_consumes_frame_with_records), instantiated at the decoder configuration extracted from the current source. Tied to the code by the extracted guard facts and by decoding ~20k (quick) mutated frames of every response type x version in a child process (ulimit -v, GOMEMLIMIT, timeout) and comparing the outcome class and measured allocation with the model.",
         "design_ref": "DESIGN.md §7 C20",
     },
-    "level_note": "Trusted: Lean kernel + standard axioms; the syntactic guard extractors (go/ast patterns G1-G5, 7 record-set guard patterns); the child-process harness. The model's bound is in terms of the bytes ANNOUNCED by the frame size and not yet consumed (= bytes received when the frame is complete); for a frame whose size prefix itself lies, the extracted fact G8 (arrays are allocated as their elements arrive, theorem source_arrays_grow; fix f565841 of C20-D30) and the lying-size-and-count frames of the check cover the gap - a model of allocation against RECEIVED bytes is not stated. Decompression and CRC are parameters of the record-set model (any function): what a codec allocates while inflating is C16's. CPU time is not modelled (sticky-error short-circuit); hangs are observed by the harness only.",
+    "level_note": "Trusted: Lean kernel + standard axioms; the syntactic guard extractors (go/ast patterns G1-G5, 7 record-set guard patterns); the child-process harness. The model distinguishes `remain` (bytes the size prefix ANNOUNCES) from `inp` (bytes the connection really delivers): a decoder that checks every length against `remain` but allocates the announced amount upfront is `balloon` in the model (Cfg.growing = false; counterexamples lying_count_/lying_length_counterexample = C20-D30/D33), the safety theorems need Guarded = bounded (G1-G5) AND growing (G8 arrays, G9 strings/bytes), both re-extracted; allocation constants (1024 elements / 64 KiB ahead of the data) are the model's abstraction of arrayChunk / readChunk. Decompression and CRC are parameters of the record-set model (any function): what a codec allocates while inflating is C16's. CPU time is not modelled (sticky-error short-circuit); hangs are observed by the harness only.",
 }
 
 MODULE = "KafkaVerif.Props.C20"
@@ -129,6 +129,36 @@ def run(ctx, variants=(("verif", "c04"), ("verif,unsafe", "c04u"))):
                 lying.append("%s %s %s" % (f[0], f[1], bytes(b[:o + 4]).hex()))
         cases += lying[:2]
         lying_all |= set(c.split(" ")[2] for c in lying[:2])
+        # (a3') the same with EVERY top-level int32 / compact length or count field of every response type x version (strings,
+        #       bytes, arrays, tagged-field sizes): size prefix 2^31-1, the field set to 0x7f000000 (within the announced rest),
+        #       the frame cut right after the field and 3 bytes later.  Only ~20 bytes were received: error, no allocation
+        nly = 0
+        for f, raw, fields in parsed:
+            top = [x for x in fields if x["kind"] in ("i32", "uv") and x["off"] >= 8 and not x["crc"] and len(x["encl"]) == 1]
+            if ctx.tier != "thorough":
+                top = top[:4]
+            for x in top:
+                o, w = x["off"], x["width"]
+                huge = bytes.fromhex("7f000000") if x["kind"] == "i32" else codec.enc_uv(0x7f000000)
+                b = bytearray(raw[:o]) + huge
+                b[0:4] = bytes.fromhex("7fffffff")
+                for tail in (b"", b"\x01\x02\x03"):
+                    cases.append("%s %s %s" % (f[0], f[1], (bytes(b) + tail).hex()))
+                    nly += 1
+            # … and INSIDE record sets: every enclosing length (frame, record-set size, batch length / message size) lies
+            #     consistently (each inside the one around it) and the field itself is huge; cut after the field
+            deep = [x for x in fields if x["kind"] in ("i32", "uv", "zv") and x["off"] >= 8 and len(x["encl"]) > 1]
+            if ctx.tier != "thorough":
+                deep = deep[:6]
+            for x in deep:
+                o = x["off"]
+                huge = {"i32": bytes.fromhex("60000000"), "uv": codec.enc_uv(0x60000000), "zv": codec.enc_zv(0x60000000)}[x["kind"]]
+                b = bytearray(raw[:o]) + huge + b"\x01\x02"
+                for lvl, e in enumerate(sorted(x["encl"])):
+                    b[e:e + 4] = struct.pack(">i", 0x7fffffff - lvl * 0x04000000)
+                cases.append("%s %s %s" % (f[0], f[1], bytes(b).hex()))
+                nly += 1
+        ctx.coverage["lying_size_and_length_cases"] = ctx.coverage.get("lying_size_and_length_cases", 0) + nly
         # (b) extra: blind overwrites at random offsets
         gen, rc, err = ctx.run_driver(drv, ["-malgen"])
         if rc != 0:
